@@ -54,7 +54,7 @@ def shards(tier, seed):
     for lname, M in lat_list(tier, seed):
         for axis in range(3):
             out.append({'kind': 'axis', 'F': 1, 'axis': axis, 'lat': lname, 'M': M.tolist()})
-            out.append({'kind': 'axis', 'F': 2, 'axis': axis, 'lat': lname, 'M': M.tolist()})
+            out.append({'kind': 'axis', 'F': 2, 'axis': axis, 'lat': lname, 'M': M.tolist(), 'near': tier == 'thorough' or lname in ('cubic6', 'tric-pmg-default', 'tric-vesta-left-handed')})
             if tier == 'quick' and lname not in ('cubic6', 'tric-pmg-default', 'ortho567-axes-permuted'):
                 continue
             for first in range(0, len(FACE), 3):
@@ -223,7 +223,7 @@ def run_shard(shard) -> Result:
 
     if shard['kind'] == 'axis':
         F, axis = shard['F'], shard['axis']
-        ALPHA = FACE + NEAR if F <= 2 else FACE
+        ALPHA = FACE + NEAR if (F <= 2 and (shard.get('near', True))) else FACE
         firsts = range(*shard['first']) if 'first' in shard else range(len(ALPHA))
         for i0 in firsts:
             if i0 >= len(ALPHA):
